@@ -1578,3 +1578,186 @@ func (c *Ctx) interfering(prop string) {
 		c.St.Eval("interfering:"+show(base), len(sched) > 0)
 	}
 }
+
+// reduceInitials: the initial value of a reduction is an ordinary value, whatever it is — nil, zero values, the
+// extremes other methods use as accumulators.  The callback runs once per element (of the kind), in order, the first
+// accumulator it sees is the initial value, every later one is what it returned, and the result is its last return
+// value (the initial value on an empty selection).  Implementation-side monitor (C14).
+func (c *Ctx) reduceInitials(prop string) {
+	m := c.M
+	m.Case("reduce-initials")
+	inits := []any{nil, 0, "", false, 0.0, -1, 1, math.MaxInt64, math.MinInt64, math.MaxFloat64, -math.MaxFloat64, "x", true}
+	lists := [][]any{{}, {5}, {nil}, {5, 6}, {nil, nil}, {"a", 2, 3.5}, {0, 0, 0}, {"", ""}}
+	for _, elems := range lists {
+		for _, init := range inits {
+			l := at.NewList(elems...)
+			var accs, vals []any
+			n := 0
+			res := func() (res any) {
+				defer func() {
+					if r := recover(); r != nil {
+						res = fmt.Sprint("panic: ", r)
+					}
+				}()
+				return l.Reduce(init, func(acc any, v any) any {
+					accs = append(accs, acc)
+					vals = append(vals, v)
+					n++
+					return n * 1000
+				})
+			}()
+			wantAccs := []any{}
+			for i := range elems {
+				if i == 0 {
+					wantAccs = append(wantAccs, init)
+				} else {
+					wantAccs = append(wantAccs, i*1000)
+				}
+			}
+			var wantRes any = init
+			if len(elems) > 0 {
+				wantRes = len(elems) * 1000
+			}
+			if fmt.Sprintf("%#v", accs) != fmt.Sprintf("%#v", wantAccs) && !(len(accs) == 0 && len(wantAccs) == 0) || fmt.Sprintf("%#v", vals) != fmt.Sprintf("%#v", elems) && !(len(vals) == 0 && len(elems) == 0) || fmt.Sprintf("%#v", res) != fmt.Sprintf("%#v", wantRes) {
+				m.Alarm(prop, fmt.Sprintf("Reduce(%#v, f) on %#v: f saw the accumulators %#v and the values %#v and the result is %#v; reference: accumulators %#v, values %#v, result %#v", init, elems, accs, vals, res, wantAccs, elems, wantRes))
+			}
+		}
+	}
+	// typed reductions with the zero value and the extremes as initial value
+	ints := at.NewList(3, "s", -4, 2.5, 0)
+	for _, init := range []int{0, -1, 1, math.MaxInt64, math.MinInt64} {
+		var seen []int
+		got := ints.ReduceInts(init, func(acc, v int) int { seen = append(seen, v); return acc - v })
+		if fmt.Sprint(seen) != "[3 -4 0]" || got != init-3+4 {
+			m.Alarm(prop, fmt.Sprintf("ReduceInts(%d, acc-v) on [3,\"s\",-4,2.5,0]: saw %v, result %d; reference [3 -4 0], %d", init, seen, got, init-3+4))
+		}
+	}
+	strs := at.NewList("a", 1, "", "b")
+	for _, init := range []string{"", "x", " "} {
+		var seen []string
+		got := strs.ReduceStrings(init, func(acc, v string) string { seen = append(seen, v); return acc + "[" + v + "]" })
+		if len(seen) != 3 || got != init+"[a][][b]" {
+			m.Alarm(prop, fmt.Sprintf("ReduceStrings(%q, …) on [\"a\",1,\"\",\"b\"]: saw %q, result %q; reference %q", init, seen, got, init+"[a][][b]"))
+		}
+	}
+	fl := at.NewList(1.5, 2, -0.5)
+	for _, init := range []float64{0, math.MaxFloat64, -math.MaxFloat64, math.Inf(1)} {
+		var seen []float64
+		got := fl.ReduceFloats(init, func(acc, v float64) float64 { seen = append(seen, v); return math.Min(acc, v) })
+		if fmt.Sprint(seen) != "[1.5 -0.5]" || got != math.Min(init, -0.5) {
+			m.Alarm(prop, fmt.Sprintf("ReduceFloats(%v, min) on [1.5,2,-0.5]: saw %v, result %v; reference [1.5 -0.5], %v", init, seen, got, math.Min(init, -0.5)))
+		}
+	}
+	c.St.Eval("reduce-initials", true)
+}
+
+// selfStore: a container stored in itself (d.Add(d), o.Set("me", o)) — receiver, argument and element at once.  The
+// heap is then cyclic, which the model and the snapshots do not cover (they would not terminate), so this is an
+// implementation-side monitor that only uses calls which do not walk the cycle: the stored element is the identical
+// value, through every way of reading one element, for plain containers and for user types embedding one.
+func (c *Ctx) selfStore(prop string) {
+	m := c.M
+	m.Case("self-store")
+	same := func(a, b any) bool {
+		defer func() { recover() }()
+		return a == b
+	}
+	check := func(what string, f func() (got, want any)) {
+		defer func() {
+			if r := recover(); r != nil {
+				m.Alarm(prop, fmt.Sprintf("self-store: %s panics: %v", what, r))
+			}
+		}()
+		if got, want := f(); !same(got, want) {
+			m.Alarm(prop, fmt.Sprintf("self-store: %s: the element read back is not the identical value that was stored (%T %p, stored %T %p)", what, got, got, want, want))
+		}
+	}
+	mkL := map[string]func() at.List{
+		"plain list": func() at.List { return at.NewList(1) },
+		"derived list": func() at.List {
+			d := &DerivedList{List: at.NewList(1)}
+			d.Init(d)
+			return d
+		},
+		"doubly derived list": func() at.List {
+			d := &DerivedList{List: at.NewList(1)}
+			d.Init(d)
+			dd := &DerivedList{List: d}
+			dd.Init(dd)
+			return dd
+		},
+	}
+	for name, mk := range mkL {
+		for _, how := range []string{"Add", "Insert-end", "Insert-0", "Replace", "SetTF-end", "SetTF-0"} {
+			l := mk()
+			pos := 1
+			switch how {
+			case "Add":
+				l.Add(l)
+			case "Insert-end":
+				l.Insert(l.Count(), l)
+			case "Insert-0":
+				l.Insert(0, l)
+				pos = 0
+			case "Replace":
+				l.Replace(0, l)
+				pos = 0
+			case "SetTF-end":
+				l.SetTF("#1", l)
+			case "SetTF-0":
+				l.SetTF("#0", l)
+				pos = 0
+			}
+			w := name + " stored in itself by " + how
+			check(w+", Get", func() (any, any) { return l.Get(pos), l })
+			check(w+", GetList", func() (any, any) { return l.GetList(pos), l })
+			check(w+", GetTF", func() (any, any) { return l.GetTF("#" + strconv.Itoa(pos)), l })
+			check(w+", ListSlice", func() (any, any) { return l.ListSlice()[0], l })
+			check(w+", Slice", func() (any, any) { return l.Slice()[pos], l })
+			check(w+", ForEachList", func() (any, any) {
+				var got any
+				l.ForEachList(func(x at.List) { got = x })
+				return got, l
+			})
+			check(w+", TypeOf", func() (any, any) { return l.TypeOf(pos), at.TypeList })
+			check(w+", IndexOf", func() (any, any) { return l.IndexOf(l), pos })
+			check(w+", Ego", func() (any, any) { return l.Ego(), l })
+		}
+	}
+	mkO := map[string]func() at.Object{
+		"plain object": func() at.Object { return at.NewObject("a", 1) },
+		"derived object": func() at.Object {
+			d := &DerivedObject{Object: at.NewObject("a", 1)}
+			d.Init(d)
+			return d
+		},
+	}
+	for name, mk := range mkO {
+		for _, how := range []string{"Set", "SetTF", "Set-over"} {
+			o := mk()
+			key := "me"
+			switch how {
+			case "Set":
+				o.Set("me", o)
+			case "SetTF":
+				o.SetTF(".me", o)
+			case "Set-over":
+				o.Set("a", o)
+				key = "a"
+			}
+			w := name + " stored in itself by " + how
+			check(w+", Get", func() (any, any) { return o.Get(key), o })
+			check(w+", GetObject", func() (any, any) { return o.GetObject(key), o })
+			check(w+", GetTF", func() (any, any) { return o.GetTF("." + key), o })
+			check(w+", Dict", func() (any, any) { return o.Dict()[key], o })
+			check(w+", TypeOf", func() (any, any) { return o.TypeOf(key), at.TypeObject })
+			check(w+", KeyOf", func() (any, any) { return o.KeyOf(o), key })
+			check(w+", ForEachObject", func() (any, any) {
+				var got any
+				o.ForEachObject(func(x at.Object) { got = x })
+				return got, o
+			})
+		}
+	}
+	c.St.Eval("self-store:"+prop, true)
+}
